@@ -55,7 +55,7 @@ func vSetOnly() *Set[int] { s, _ := VGSet(); return s }
 // VHEnum: Each/Any/All/Find/Select/Map with arbitrary predicate and mapping functions (C14).
 func VHEnum() {
 	s := vSetOnly()
-	containers.VEnumStep(containers.VEnum{Recv: s, Indexed: true,
+	containers.VEnumStep(containers.VEnum{Recv: s, Inv: func(c any) { VInv(c.(*Set[int])) }, Indexed: true,
 		Seq:    func(c any) ([]int, []int) { vs := c.(*Set[int]).Values(); return containers.VIdx(len(vs)), vs },
 		Each:   s.Each, Any: s.Any, All: s.All, Find: s.Find,
 		Select: func(f func(a, b int) bool) any { return s.Select(f) },
@@ -129,4 +129,10 @@ func VHJSONRound() {
 func VHJSONLoad() {
 	c, _ := VGSet()
 	containers.VJSONLoad(vJSON(c))
+}
+
+// VHHistory: D operations in a row from the constructor (see VMapHistory).
+func VHHistory() {
+	s := New[int]()
+	sets.VSetHistory(s, true, "LinkedHashSet", func() { VInv(s) })
 }
